@@ -1,4 +1,5 @@
 import BS.Properties.C17
+import BS.Properties.C17c
 #print axioms BS.Reader.drain_spec
 #print axioms BS.Reader.up_lawful
 #print axioms BS.Reader.map_lawful
@@ -13,3 +14,6 @@ import BS.Properties.C17
 #print axioms BS.Reader.headBuggy_writes_beyond
 #print axioms BS.Reader.scanner_spec
 #print axioms BS.Reader.scanner_over_script
+#print axioms BS.Merge.cogroup_machine_spec
+#print axioms BS.Merge.cogroup_of_unsorted
+#print axioms BS.Merge.groupsOf_sorted
